@@ -149,6 +149,9 @@ func (g *genCtx) node(depth int) Node {
 		return n
 	case x < 34:
 		name := fmt.Sprintf("b%d", id)
+		if g.r.Pct(30) {
+			name = fmt.Sprintf("Blk%dX", id) // block names keep their case
+		}
 		if len(g.blocks) > 0 && g.r.Pct(15) {
 			if prev := g.blocks[len(g.blocks)-1]; prev != "nil" {
 				name = prev // an inner block with the same name shadows the outer one
@@ -190,7 +193,7 @@ func (g *genCtx) node(depth int) Node {
 	case x < 71:
 		return Node{K: "recover", ID: id, Kids: g.kids(depth-1, 2)}
 	default:
-		k := []string{"seq", "let", "when", "cond", "dolist", "dotimes", "lambda"}[g.r.Intn(7)]
+		k := []string{"seq", "let", "when", "cond", "dolist", "dotimes", "lambda", "send"}[g.r.Intn(8)]
 		if k == "dolist" || k == "dotimes" {
 			// the loop establishes a nil block: (return v) leaves it
 			g.blocks = append(g.blocks, "nil")
@@ -282,6 +285,10 @@ func (n *Node) render(dir string, b *strings.Builder) {
 		fmt.Fprintf(b, "(let ((lv%d (dotimes (i%d 2) %s))) (sim-emit \"bend\" \"nil\") lv%d)", n.ID, n.ID, all(), n.ID)
 	case "lambda":
 		fmt.Fprintf(b, "(funcall (lambda (a%d) %s) %d)", n.ID, all(), n.ID)
+	case "send":
+		// the body is a closure that a flavors method funcalls: the method's
+		// scope reaches the enclosing blocks only through the closure
+		fmt.Fprintf(b, "(send c07-caller :call (lambda (a%d) %s))", n.ID, all())
 	case "block":
 		// the value is kept in a variable so that a marker can tell when the
 		// block has ended, whichever way it ended
@@ -331,6 +338,7 @@ func errForm(kind string) string {
 
 func (c *Case) source(dir string) string {
 	var b strings.Builder
+	b.WriteString("(progn (unless (boundp 'c07-caller) (defflavor c07-caller-flavor () ()) (defmethod (c07-caller-flavor :call) (f) (funcall f 1)) (defvar c07-caller (make-instance 'c07-caller-flavor)))\n")
 	b.WriteString("(let (")
 	for i := 0; i < c.Mutexes; i++ {
 		fmt.Fprintf(&b, "(m%d (make-mutex)) ", i)
@@ -341,7 +349,7 @@ func (c *Case) source(dir string) string {
 	}
 	b.WriteString(" ")
 	c.Prog.render(dir, &b)
-	b.WriteString(")\n")
+	b.WriteString("))\n")
 	return b.String()
 }
 
@@ -603,6 +611,12 @@ func (c *Case) judge(out runOut, f *Fault) *harness.Violation {
 			wrote[fs[1]]++
 		}
 	}
+	if pendingRet != "" && out.mainRes.Cond != "" && (f == nil || f.Kind == "interrupt") {
+		// a return-from to a block that encloses it lexically never arrived
+		// and no error leaf or interrupt took over: the exit itself failed
+		return viol("exit-lost", "%s: (return-from %s ...) never reached its block; the program ended with %s: %s; trace: %s",
+			what, pendingRet, out.mainRes.Cond, out.mainRes.Msg, trace(out.marks))
+	}
 	if len(stack) > 0 {
 		return viol("cleanup-missing", "%s: regions %v were entered but their cleanup never ran; trace: %s", what, stack, trace(out.marks))
 	}
@@ -770,7 +784,7 @@ func (e *engine) Shrink(raw json.RawMessage) (out []json.RawMessage) {
 			// replace the node by one of its kids (only for transparent forms)
 			if len(path) > 0 || true {
 				switch n.K {
-				case "seq", "let", "when", "cond", "dolist", "dotimes", "lambda", "ignore", "recover", "uwp", "lock", "file", "block":
+				case "seq", "let", "when", "cond", "dolist", "dotimes", "lambda", "send", "ignore", "recover", "uwp", "lock", "file", "block":
 					emit(replace(path, cloneNode(n.Kids[i])))
 				}
 			}
